@@ -748,12 +748,15 @@ def measure_set(repo: Repo) -> List[Ob]:
     P = ("C05", "C04")
     fi = repo.func("Envelope.measure")
     guards: List[Tuple[str, ast.If]] = []
+    import re as _re2
+    _drawn = {_re2.sub(r"__h\d+", "", n_) for n_ in outcome_names(fi.node)} | outcome_names(fi.node)      # whatever the local that receives a draw is called
     for n in walk_no_nested(fi.node):
         if isinstance(n, ast.If):
             tgt = None
             for b in n.body:
                 for x in [b] + list(walk_no_nested(b)):
-                    if isinstance(x, ast.Assign) and isinstance(x.targets[0], ast.Subscript) and src(x.targets[0].value) == "outcomes" and src(x.value) == "choice":
+                    if isinstance(x, ast.Assign) and isinstance(x.targets[0], ast.Subscript) and isinstance(x.targets[0].value, ast.Name) \
+                            and isinstance(x.value, ast.Name) and x.value.id in _drawn and src(x.targets[0].slice).split(".")[-1] in ("fock", "polarization"):
                         tgt = src(x.targets[0].slice).split(".")[-1]
             test = n.test
             if isinstance(test, ast.Name):
